@@ -32,6 +32,7 @@ def gen_config(rng, tier, i=0, **fix):
                period_dig=int(common.pick(rng, [1, 1, -1, 2, 3])), period_rq=int(common.pick(rng, [1, 1, -1, 2, 3])),
                N_dig=int(common.pick(rng, [10000, 64, 1000])), N_rq=int(common.pick(rng, [10000, 3, 50])),
                noise_std=float(common.pick(rng, [1.0, 0.3, 5.0])), bg_noise_std=float(common.pick(rng, [0.0, 0.7])),
+               noise_std2=float(common.pick(rng, [0.0, 0.0, 0.0, 0.6])),     # a second, independent noise source on every stream
                tones=[dict(chan=float(rng.uniform(start_chan - 0.3, start_chan + nchan - 0.7)), level=float(rng.uniform(0.05, 0.5)),
                            drift=0.0) for _ in range(int(rng.integers(0, 3)))],
                seed=int(rng.integers(2 ** 31)))
@@ -67,6 +68,8 @@ def build(stg, cfg):
     for a in ants:
         for s in a.streams:
             s.add_noise(0.0, cfg['noise_std'])
+            if cfg.get('noise_std2', 0.0) > 0:
+                s.add_noise(0.1, cfg['noise_std2'])
             for t in cfg['tones']:
                 f = cfg['fch1'] + t['chan'] * chan_bw
                 s.add_constant_signal(f_start=f, drift_rate=t['drift'], level=t['level'])
